@@ -502,6 +502,7 @@ run_s1(void *arg)
 typedef struct s2arg {
 	int proto; // 0 pair0, 1 push->pull
 	int k;     // pipes to reject
+	int side;  // 0: the listening socket rejects, 1: the dialing socket rejects
 } s2arg;
 
 static void
@@ -519,7 +520,7 @@ run_s2(void *arg)
 	VH_OK(nng_socket_set_ms(b, NNG_OPT_RECONNMINT, 5));
 	VH_OK(nng_socket_set_ms(b, NNG_OPT_RECONNMAXT, 5));
 	VH_OK(nng_listen(a, url, NULL, 0));
-	reject_left[0] = x->k;
+	reject_left[x->side] = x->k;
 	vs_settle();
 
 	int  sent = 0, got = 0, eagain = 0;
@@ -554,7 +555,7 @@ run_s2(void *arg)
 			eagain++;
 		vs_settle();
 		got += drain(0, last, sizeof(last));
-		if (got >= 2 && count_ev(0, NNG_PIPE_EV_ADD_POST) >= 1) {
+		if (got >= 2 && count_ev(x->side, NNG_PIPE_EV_ADD_POST) >= 1) {
 			good_at = round;
 			break;
 		}
@@ -562,20 +563,39 @@ run_s2(void *arg)
 		vs_settle();
 	}
 	int64_t dt   = vs_now() - t0;
-	int     npre = count_ev(0, NNG_PIPE_EV_ADD_PRE);
+	int     npre = count_ev(x->side, NNG_PIPE_EV_ADD_PRE);
 	if (npre < x->k + 1)
 		vs_fail("C14:redial-missing",
-		    "listener side saw %d connection(s) in %lld ms; the dialer "
+		    "%s side saw %d connection(s) in %lld ms; the dialer "
 		    "(reconnect 5 ms) should have redialled after each of the %d "
-		    "rejected pipes",
-		    npre, (long long) dt, x->k);
-	if (count_ev(0, NNG_PIPE_EV_ADD_POST) < 1 || good_at < 0)
+		    "pipes rejected by the %s socket",
+		    x->side ? "dialer" : "listener", npre, (long long) dt, x->k,
+		    x->side ? "dialing" : "listening");
+	if (count_ev(x->side, NNG_PIPE_EV_ADD_POST) < 1 || good_at < 0)
 		vs_fail("C14:listener-stopped-accepting",
 		    "after %d rejected pipe(s) no later connection was accepted and "
 		    "carried messages (ADD_PRE %d, ADD_POST %d, sent %d, received %d)",
 		    x->k, npre, count_ev(0, NNG_PIPE_EV_ADD_POST), sent, got);
-	if (n_rejected[0] != x->k)
-		vs_fail("harness:s2", "rejected %d of %d", n_rejected[0], x->k);
+	if (n_rejected[x->side] != x->k)
+		vs_fail("harness:s2", "rejected %d of %d", n_rejected[x->side], x->k);
+	if (x->side == 1) {
+		// inproc connections are made one after the other: the i-th pipe of
+		// the listener is the peer of the i-th pipe of the dialer, so a
+		// message that arrived on the peer of a rejected pipe was carried by it
+		pinfo *pa[MAXPI], *pb[MAXPI];
+		int    na = 0, nb = 0;
+		for (int i = 0; i < NPI; i++)
+			if (PI[i].sock == 0)
+				pa[na++] = &PI[i];
+			else
+				pb[nb++] = &PI[i];
+		for (int i = 0; i < na && i < nb; i++)
+			if (pb[i]->rejected && pa[i]->msgs)
+				vs_fail("C14:rejected-pipe-carried-message",
+				    "dialing socket closed its pipe #%d inside ADD_PRE but "
+				    "%d message(s) sent on it reached the peer",
+				    i, pa[i]->msgs);
+	}
 
 	close_sock(1);
 	close_sock(0);
@@ -1090,6 +1110,153 @@ run_s4(void *arg)
 	vh_fini();
 }
 
+// ---- S5: the peer closes while the receiver is not reading ---------------------------
+// a receive-only socket (PULL / SUB / PAIR0 used one way) holds an unread message, so no
+// transport receive is outstanding, when the peer closes the connection.  Once the
+// application reads on, the loss must be noticed: REM_POST, a redial within the reconnect
+// time, and messages flow on the new pipe.
+typedef struct s5arg {
+	int proto; // 0 pair0, 1 push->pull, 3 pub->sub
+	int tran;  // 0 ws, 1 tcp, 2 ipc, 3 inproc
+} s5arg;
+static const char *S5T[] = { "ws", "tcp", "ipc", "inproc" };
+
+static void
+run_s5(void *arg)
+{
+	s5arg     *x = arg;
+	nng_socket a, b; // a sends and listens, b receives and dials
+	char       url[200];
+	vs_tcp_grace_us = 1500;
+	vh_init(0);
+	ledger_reset();
+	if (x->proto == 3) {
+		VH_OK(nng_sub0_open(&b));
+		VH_OK(nng_pub0_open(&a));
+		VH_OK(nng_sub0_socket_subscribe(b, "", 0));
+	} else if (x->proto == 1) {
+		VH_OK(nng_pull0_open(&b));
+		VH_OK(nng_push0_open(&a));
+	} else {
+		VH_OK(nng_pair0_open(&b));
+		VH_OK(nng_pair0_open(&a));
+	}
+	watch(0, a);
+	watch(1, b);
+	VH_OK(nng_socket_set_ms(b, NNG_OPT_RECONNMINT, 10));
+	VH_OK(nng_socket_set_ms(b, NNG_OPT_RECONNMAXT, 10));
+	VH_OK(nng_socket_set_ms(b, NNG_OPT_RECVTIMEO, 100));
+	VH_OK(nng_socket_set_ms(a, NNG_OPT_SENDTIMEO, 100));
+	VH_OK(nng_socket_set_int(b, NNG_OPT_RECVBUF, 1));
+	nng_listener l;
+	if (x->tran <= 1) {
+		int port = 0;
+		VH_OK(nng_listen(a, x->tran == 0 ? "ws://127.0.0.1:0/s5" : "tcp://127.0.0.1:0",
+		    &l, 0));
+		VH_OK(nng_listener_get_int(l, NNG_OPT_BOUND_PORT, &port));
+		snprintf(url, sizeof(url),
+		    x->tran == 0 ? "ws://127.0.0.1:%d/s5" : "tcp://127.0.0.1:%d", port);
+	} else {
+		if (x->tran == 2)
+			snprintf(url, sizeof(url), "ipc://%s/c14s5-%d", vx_rundir(),
+			    (int) getpid());
+		else
+			snprintf(url, sizeof(url), "inproc://c14s5");
+		VH_OK(nng_listen(a, url, &l, 0));
+	}
+	VH_OK(nng_dial(b, url, NULL, 0));
+	vs_settle();
+	// nsend unread messages: 1 parks in the protocol, more also fill the transport
+	int nsend = 1 + vs_choose(VK_ENV, 3);
+	int how   = vs_choose(VK_ENV, 2); // 0: a closes its pipe, 1: a closes its listener too
+	for (int i = 0; i < nsend; i++) {
+		char t[8];
+		snprintf(t, sizeof(t), "u%d", i);
+		if (vh_send_nb(a, t, 3) != 0)
+			nsend = i;
+	}
+	vs_settle();
+	vs_sleep(5);
+	if (count_ev(0, NNG_PIPE_EV_ADD_POST) != 1)
+		vs_fail("harness:s5", "setup: %d pipes on the sender",
+		    count_ev(0, NNG_PIPE_EV_ADD_POST));
+	nng_pipe pa = NNG_PIPE_INITIALIZER;
+	for (int i = 0; i < NPI; i++)
+		if (PI[i].sock == 0)
+			pa.id = PI[i].id;
+	if (how == 1) {
+		VH_OK(nng_listener_close(l));
+		VH_OK(nng_listen(a, url, &l, 0));
+	} else
+		nng_pipe_close(pa);
+	vs_settle();
+	vs_sleep(50);
+	vs_settle();
+	// the application reads on: the unread messages may or may not survive the
+	// close (those still inside the transport), then nothing more comes
+	int got = 0, last5 = 0;
+	for (int i = 0; i < nsend + 2; i++) {
+		nng_msg *m;
+		if (nng_recvmsg(b, &m, 0) != 0)
+			break;
+		// (SUB drops the oldest unread message when its buffer is full)
+		int k = (nng_msg_len(m) == 3 && ((char *) nng_msg_body(m))[0] == 'u')
+		    ? ((char *) nng_msg_body(m))[1] - '0'
+		    : -1;
+		if (k < last5 || k >= nsend || (x->proto != 3 && k != got))
+			vs_fail("C14:s5:content", "unread message %d came out as '%.3s'", got,
+			    (char *) nng_msg_body(m));
+		last5 = k + 1;
+		got++;
+		nng_msg_free(m);
+	}
+	vs_nontrivial();
+	// by now (>= 100 ms after the last read attempt) the lost pipe must have been
+	// removed and a new one made
+	vs_sleep(50);
+	vs_settle();
+	char ha[80], hb[80];
+	ledger_summary(0, ha, sizeof(ha));
+	ledger_summary(1, hb, sizeof(hb));
+	if (count_ev(1, NNG_PIPE_EV_REM_POST) < 1)
+		vs_fail("C14:loss-not-noticed",
+		    "%s over %s: the peer closed the connection while %d message(s) were "
+		    "unread; the receiver read %d of them and kept reading for 150 ms but "
+		    "its pipe was never removed (receiver events %s)",
+		    PRN[x->proto == 3 ? 1 : x->proto], S5T[x->tran], nsend, got, hb);
+	if (count_ev(1, NNG_PIPE_EV_ADD_POST) < 2)
+		vs_fail("C14:redial-missing",
+		    "%s over %s: after the peer closed the connection (with %d unread "
+		    "message(s)) the dialer made no new connection within 150 ms "
+		    "(reconnect time 10 ms; receiver events %s, sender events %s)",
+		    PRN[x->proto == 3 ? 1 : x->proto], S5T[x->tran], nsend, hb, ha);
+	// and traffic flows again
+	int through = 0;
+	for (int t = 0; t < 10 && !through; t++) {
+		nng_msg *m;
+		vh_send_nb(a, "new", 4);
+		vs_settle();
+		while (nng_recvmsg(b, &m, 0) == 0) {
+			if (nng_msg_len(m) == 4 && memcmp(nng_msg_body(m), "new", 4) == 0)
+				through = 1;
+			nng_msg_free(m);
+		}
+	}
+	if (!through)
+		vs_fail("C14:redial-missing", "%s over %s: no traffic on the new connection",
+		    PRN[x->proto == 3 ? 1 : x->proto], S5T[x->tran]);
+	close_sock(1);
+	close_sock(0);
+	vs_settle();
+	vs_sleep(20);
+	vs_settle();
+	ledger_final();
+	vs_outcome("unread=%d got=%d how=%d", nsend, got, how);
+	if (x->tran == 2)
+		unlink(url + 6);
+	vh_fini();
+}
+
 // ---- driver --------------------------------------------------------------------
 static void
 explore(const char *name, void (*fn)(void *), void *arg, int p, int sw, int t,
@@ -1132,6 +1299,22 @@ main(int argc, char **argv)
 		    s3[i].at_dialer ? "dialeropt" : "sockopt");
 		explore(name, run_s3, &s3[i], 0, 0, 0, 0);
 	}
+	{
+		static s5arg s5[12];
+		static const int PR5[] = { 1, 0, 3 };
+		int n5 = 0;
+		for (int pr = 0; pr < 3; pr++)
+			for (int tr = 0; tr < 4; tr++) {
+				if (!T && pr > 0 && tr > 0)
+					continue;
+				s5[n5].proto = PR5[pr];
+				s5[n5].tran  = tr;
+				snprintf(name, sizeof(name), "S5-peer-close-unread-%s-%s",
+				    PR5[pr] == 3 ? "pubsub" : PRN[PR5[pr]], S5T[tr]);
+				explore(strdup(name), run_s5, &s5[n5], 0, 0, 0, 0);
+				n5++;
+			}
+	}
 	static s4arg s4[] = { { 0 }, { 1 }, { 2 } };
 	static const char *s4n[] = { "S4-accept-pair0", "S4-accept-pull",
 		"S4-accept-rep" };
@@ -1145,12 +1328,13 @@ main(int argc, char **argv)
 	//   2 "p1"    two deviations, at most one of them a preemption
 	//   3 "p2"    two deviations, both may be preemptions
 	static const int BP[4] = { 0, 1, 1, 2 }, BT[4] = { 0, 1, 2, 2 };
-	static s2arg s2[]  = { { 0, 1 }, { 1, 1 }, { 0, 2 }, { 1, 2 } };
-	static const int s2q[] = { 2, 1, 1, 1 }, s2t[] = { 3, 2, 2, 2 };
-	for (int i = 0; i < 4; i++) {
+	static s2arg s2[]  = { { 0, 1, 0 }, { 1, 1, 0 }, { 0, 2, 0 }, { 1, 2, 0 },
+		 { 0, 1, 1 }, { 1, 2, 1 } };
+	static const int s2q[] = { 2, 1, 1, 1, 1, 1 }, s2t[] = { 3, 2, 2, 2, 2, 2 };
+	for (int i = 0; i < 6; i++) {
 		int c = T ? s2t[i] : s2q[i];
-		snprintf(name, sizeof(name), "S2-reject-%s-k%d", PRN[s2[i].proto],
-		    s2[i].k);
+		snprintf(name, sizeof(name), "S2-reject%s-%s-k%d",
+		    s2[i].side ? "-by-dialer" : "", PRN[s2[i].proto], s2[i].k);
 		if (vx_time_left() < 30)
 			break;
 		explore(name, run_s2, &s2[i], BP[c], 2, 1, BT[c]);
